@@ -12,7 +12,7 @@ Keys are lower-case hex, the empty key is `-`; a pair is `<hexkey>:<value>`.
   get <key> | lget <key> | iter | liter | riter | seek <key> | seeklb <key> | prefix <key>
   bv <bits> ...               bvbits | bvranklut | bvsellut | rank <i> | select <k> | dist <i>
   bucket <blockSize> | <pair> ... | <pair> ...
-  bget <key> | bvalues | bpairs | bsuggest <key> <limit> | blike <prefix> <pre|suf|has> <sub> | bmerge
+  bget <key> | bvalues | bpairs | bsuggest <key> <limit> | blike <prefix> <pre|suf|has> <sub> | bmerge <blockSize>
 -/
 import LinVerif.Util.Proto
 import LinVerif.Model.Louds
@@ -257,11 +257,13 @@ def step (st : St) (ws : List String) : St × String :=
         withBucket st (fun ts =>
           showNats (sortNats (((bucketPrefix ts pre).filter (fun kv => (likeCheck mode kv.1 subKey).getD false)).map (·.2))))
     | _, _ => (st, "bad-op")
-  | ["bmerge"] =>
-    match st.bucket with
-    | none => (st, "no-bucket")
-    | some ts =>
-      match mergeTries st.blockSize ts with
+  | ["bmerge", bsz] =>
+    match bsz.toNat?, st.bucket with
+    | none, _ => (st, "bad-op")
+    | some 0, _ => (st, "bad-op")
+    | _, none => (st, "no-bucket")
+    | some blockSize, some ts =>
+      match mergeTries blockSize ts with
       | some r => ({ st with bucket := some r }, s!"ok tries={r.length}")
       | none => ({ st with bucket := none }, "panic")
   | _ => (st, "bad-op")
